@@ -18,6 +18,9 @@ CHECKS = {
  "C18": ("exploration", "reference successor function over all 65536 counter states; distinctness walks; concurrent draws across the wrap; map model of the packet store over bounded-exhaustive op sequences; porcupine (partitioned by direction,id); Go race detector",
          "all 65536 counter states (one step), 256 (quick) / all 65536 (thorough) full 65535-draw walks, 8k/100k concurrent rounds at the wrap-around, store op sequences to length 3/4 over 25 operations with full-state comparison, 4k/60k concurrent store histories",
          "MemorySession.Reset is exercised sequentially only (it spans both stores and the counter and is not claimed atomic across directions); concurrently the per-direction PacketStore.Reset is used", "2-C18"),
+ "C03": ("exploration", "sequence and byte equality under scheduled fragmentation (chunking reader, in-memory wire, raw TCP writes, raw WebSocket messages); pull and allocation counters for the read limit; truncation probes",
+         "every single/pair of split points of short streams, PRNG chunking of long streams with packets around 4096 bytes, all async/sync patterns of <=6 sends x 3 flush delays, BaseConn both directions, TCP and WebSocket loopback",
+         "expected bytes come from internal/ref/codec.go; loopback networking must be available (else that part is reported inconclusive)", "2-C03"),
 }
 NOT_APPLICABLE = {}
 def main():
